@@ -59,3 +59,21 @@ pub fn same_bits(a: &[C4], b: &[C4]) -> bool {
             .zip(b.iter())
             .all(|(x, y)| (0..4).all(|i| bits(x[i]) == bits(y[i])))
 }
+
+/// Private working directory for Plain (cwd and XDG_DATA_HOME), removed by `leave_private_workdir`
+pub fn enter_private_workdir() -> std::path::PathBuf {
+    let dir = std::path::PathBuf::from(crate::engine::VERIF_ROOT).join(".work").join(format!("{}", std::process::id()));
+    let _ = std::fs::remove_dir_all(&dir);
+    std::fs::create_dir_all(dir.join("geodesy").join("resources")).expect("create work dir");
+    std::fs::create_dir_all(dir.join("xdg")).expect("create work dir");
+    let dir = std::fs::canonicalize(&dir).unwrap();
+    std::env::set_current_dir(&dir).expect("chdir");
+    std::env::set_var("XDG_DATA_HOME", dir.join("xdg"));
+    std::env::set_var("HOME", dir.join("xdg"));
+    dir
+}
+
+pub fn leave_private_workdir(dir: &std::path::Path) {
+    let _ = std::env::set_current_dir("/");
+    let _ = std::fs::remove_dir_all(dir);
+}
